@@ -15,7 +15,8 @@ R = DEC + 'parse_dist_header_with_cache'
 RECV = 'edp_client::connection::Connection::receive_message::{closure#0}'
 
 
-def run(ctx):
+def header_rules(ctx):
+    """clauses 1 and 2 (and the CAST clause): what the header writer emits and the reader expects"""
     P = ctx.P
     WB, RB = ctx.body(W), ctx.body(R)
     if WB is None or RB is None:
@@ -99,6 +100,50 @@ def run(ctx):
         if not found:
             ctx.undecided('C14.2-longatoms-parity', side, 'no bit operation on the last flag byte found')
 
+
+
+def cache_threading(ctx, rule):
+    P = ctx.P
+    # inside the decoder: the cache parameter itself is what the header parser updates
+    ctx.rule(rule, 'a decoder function that receives the persistent cache (&mut AtomCache) hands that very cache to whatever updates it; '
+             'if it works on a copy, every successful return is preceded by writing the copy back', floor=3)
+    for p in sorted(q for q in ctx.F.bodies if q.startswith(DEC) and ctx.F.bodies[q]['kind'] == 'Fn'):
+        DB = P.B(p)
+        params = [i for i in range(1, DB.b['argc'] + 1) if 'mut' in DB.local_ty(i) and 'AtomCache' in DB.local_ty(i)]
+        if not params:
+            continue
+        k = 0
+        for bb, t in DB.calls():
+            for i, ty in enumerate(t.get('aty') or []):
+                if not ('mut' in ty and 'AtomCache' in ty):
+                    continue
+                k += 1
+                inst = '%s->%s%s' % (p.rsplit('::', 1)[1], (callee_of(t)[0] or '?').rsplit('::', 1)[1], '' if k == 1 else '#%d' % k)
+                root = receiver_root(DB, t['args'][i])[0]
+                vp = value_path(DB, t['args'][i])
+                copied = any(isinstance(x, str) and any(x.endswith(y) for y in ('::clone', '::to_owned', '::default', '::new')) for x in vp)
+                if root is not None and root[0] == 'arg' and root[1] in params and not copied:
+                    ctx.ok(rule, inst, 'passes its own cache parameter', ctx.where(DB, bb))
+                    continue
+                # a copy: every Ok return reachable from here must be dominated by a store through the parameter
+                oks = [b3 for b3, j3, st3 in DB.stmts() if st3['k'] == '=' and st3['pl']['l'] == 0 and st3['rv']['k'] == 'agg' and st3['rv'].get('var') == 'Ok' and b3 in DB.reachable(bb)]
+                stores = [b3 for b3, j3, st3 in DB.stmts() if st3['k'] == '=' and st3['pl']['l'] in params and st3['pl'].get('p') == ['*']]
+                missing = [b3 for b3 in oks if not any(DB.block_dominates(s_, b3) for s_ in stores)]
+                if oks and not missing:
+                    ctx.ok(rule, inst, 'works on a copy that is written back before every successful return', ctx.where(DB, bb))
+                else:
+                    ctx.bad(rule, inst, '%s hands a copy (%s) to the cache-updating callee instead of its own cache parameter, and %d of %d successful returns are not preceded by writing it back: '
+                            'entries created or overwritten by this message are lost for the following ones' % (p.rsplit('::', 1)[1], ' <- '.join(str(x).rsplit('::', 1)[-1] for x in vp), len(missing), len(oks)),
+                            ctx.where(DB, missing[0] if missing else bb), key='PROV:%s:cache-copy-not-written-back' % p)
+
+
+
+def run(ctx):
+    P = ctx.P
+    WB, RB = ctx.body(W), ctx.body(R)
+    if WB is None or RB is None:
+        return
+    header_rules(ctx)
     # ---------------- clause 3: cache key width and reference resolution --------------------------------------
     ctx.rule('C14.3-cache-geometry', 'the persistent atom cache must distinguish 8 segments x 256 entries (11 bits) and ATOM_CACHE_REF k must resolve through entry k of the current header', floor=2)
     adt = ctx.F.adts.get(DEC + 'AtomCache')
@@ -172,37 +217,7 @@ def run(ctx):
                     ctx.bad('C14.5-cache-lifetime', 'receive_message->decode_complete_fragment', 'fragment decoding is given %s' % names, ctx.where(RC, bb),
                             key='PROV:%s:fragment-fresh-cache' % RECV)
 
-    # inside the decoder: the cache parameter itself is what the header parser updates
-    ctx.rule('C14.5-cache-threading', 'a decoder function that receives the persistent cache (&mut AtomCache) hands that very cache to whatever updates it; '
-             'if it works on a copy, every successful return is preceded by writing the copy back', floor=3)
-    for p in sorted(q for q in ctx.F.bodies if q.startswith(DEC) and ctx.F.bodies[q]['kind'] == 'Fn'):
-        DB = P.B(p)
-        params = [i for i in range(1, DB.b['argc'] + 1) if 'mut' in DB.local_ty(i) and 'AtomCache' in DB.local_ty(i)]
-        if not params:
-            continue
-        k = 0
-        for bb, t in DB.calls():
-            for i, ty in enumerate(t.get('aty') or []):
-                if not ('mut' in ty and 'AtomCache' in ty):
-                    continue
-                k += 1
-                inst = '%s->%s%s' % (p.rsplit('::', 1)[1], (callee_of(t)[0] or '?').rsplit('::', 1)[1], '' if k == 1 else '#%d' % k)
-                root = receiver_root(DB, t['args'][i])[0]
-                vp = value_path(DB, t['args'][i])
-                copied = any(isinstance(x, str) and any(x.endswith(y) for y in ('::clone', '::to_owned', '::default', '::new')) for x in vp)
-                if root is not None and root[0] == 'arg' and root[1] in params and not copied:
-                    ctx.ok('C14.5-cache-threading', inst, 'passes its own cache parameter', ctx.where(DB, bb))
-                    continue
-                # a copy: every Ok return reachable from here must be dominated by a store through the parameter
-                oks = [b3 for b3, j3, st3 in DB.stmts() if st3['k'] == '=' and st3['pl']['l'] == 0 and st3['rv']['k'] == 'agg' and st3['rv'].get('var') == 'Ok' and b3 in DB.reachable(bb)]
-                stores = [b3 for b3, j3, st3 in DB.stmts() if st3['k'] == '=' and st3['pl']['l'] in params and st3['pl'].get('p') == ['*']]
-                missing = [b3 for b3 in oks if not any(DB.block_dominates(s_, b3) for s_ in stores)]
-                if oks and not missing:
-                    ctx.ok('C14.5-cache-threading', inst, 'works on a copy that is written back before every successful return', ctx.where(DB, bb))
-                else:
-                    ctx.bad('C14.5-cache-threading', inst, '%s hands a copy (%s) to the cache-updating callee instead of its own cache parameter, and %d of %d successful returns are not preceded by writing it back: '
-                            'entries created or overwritten by this message are lost for the following ones' % (p.rsplit('::', 1)[1], ' <- '.join(str(x).rsplit('::', 1)[-1] for x in vp), len(missing), len(oks)),
-                            ctx.where(DB, missing[0] if missing else bb), key='PROV:%s:cache-copy-not-written-back' % p)
+    cache_threading(ctx, 'C14.5-cache-threading')
 
     # ---------------- clause 6: fragment-header consumer ---------------------------------------------------------------
     ctx.rule('C14.6-fragment-header-section', 'after a fragment header the atom-cache section has the same layout as in a distribution header (u8 n, n/2+1 flag bytes, n entries); treating n as a byte length is wrong', floor=1)
